@@ -1,7 +1,7 @@
 (* C05: every handler invocation of the backend request server model carries
    arguments that satisfy the protocol's validity rules (Spec.BeSpec.valid_call_b),
    for every header, descriptor set and body. *)
-From VV Require Import Base.Bits Base.Rt Base.Val Gen.GenConsts Gen.GenLayout Gen.GenFns Gen.GenArms
+From VV Require Import Base.Bits Base.Rt Base.Val Gen.GenConsts Gen.GenLayout Gen.GenFns Gen.GenVrfd Gen.GenArms
   Spec.Validity Spec.ValidityDec Spec.BeSpec Model.Transport Model.BeServer Proofs.C20Proofs Proofs.BeProofs.
 From Coq Require Import ZArith ZifyBool ZifyNat ZifyN.
 Open Scope string_scope.
@@ -141,8 +141,8 @@ Proof. reflexivity. Qed.
 
 Lemma vring_fd_request_idx buf files i f : vring_fd_request buf files = ROk (i, f) -> i < 256 /\ f = take_single files.
 Proof.
-  unfold vring_fd_request. destruct (_ || _); [discriminate|]. destruct (_ || _); [discriminate|].
-  intros H. inversion H; subst. split; [|reflexivity]. unfold cast. apply N.mod_lt. lia.
+  unfold vring_fd_request. destruct (_ || _); [discriminate|]. destruct (vrf_reject _ _ _); [discriminate|].
+  intros H. inversion H; subst. split; [|reflexivity]. unfold vrf_index. change (2 ^ 8) with 256. apply N.mod_lt. lia.
 Qed.
 
 Lemma flags_from_bits_some w all v f : flags_from_bits w all v = Some f -> f = v.
@@ -294,3 +294,19 @@ Definition be_validation_ok : bool :=
                     end) validation_table.
 Lemma be_validation_ok_true : be_validation_ok = true.
 Proof. vm_compute. reflexivity. Qed.
+
+(* ---- the vring-descriptor request, over the expressions REGENERATED from handle_vring_fd_request ---- *)
+Lemma vrf_reject_spec has_fd some nofiles :
+  vrf_reject has_fd some nofiles = false <-> (has_fd = true /\ some = true) \/ (has_fd = false /\ nofiles = true).
+Proof. unfold vrf_reject. destruct has_fd, some, nofiles; cbn; intuition congruence. Qed.
+Lemma vrf_index_small v : vrf_index v < 256.
+Proof. unfold vrf_index. change (2 ^ 8) with 256. apply N.mod_lt. discriminate. Qed.
+Lemma vrf_has_fd_bit v : vrf_has_fd v = negb (N.testbit v 8).
+Proof.
+  unfold vrf_has_fd. change 256 with (2 ^ 8).
+  destruct (N.testbit v 8) eqn:E; cbn [negb].
+  - apply N.eqb_neq. intros H. assert (Hb : N.testbit (N.land v (2 ^ 8)) 8 = true) by (rewrite N.land_spec, E, N.pow2_bits_true; reflexivity).
+    rewrite H in Hb. discriminate.
+  - apply N.eqb_eq. apply N.bits_inj_0. intros n. rewrite N.land_spec.
+    destruct (N.eq_dec n 8) as [->|Hn]; [rewrite E; reflexivity|]. rewrite N.pow2_bits_false by congruence. apply Bool.andb_false_r.
+Qed.
